@@ -704,6 +704,9 @@ class Fn:
         if isinstance(op, (ast.In, ast.NotIn)) and ta == Z and tb in (L(Z), ("S", Z)):
             txt = f"(memz {a} {b})"
             return txt if isinstance(op, ast.In) else f"(negb {txt})"
+        if isinstance(op, (ast.In, ast.NotIn)) and ta == N and tb in (L(N), ("S", N), ("S", None)):
+            txt = f"(existsb (Nat.eqb {a}) {b})"
+            return txt if isinstance(op, ast.In) else f"(negb {txt})"
         if isinstance(op, (ast.Eq, ast.NotEq)) and ta == ("S", Z) and tb == ("S", Z):
             txt = f"(set_eqz {a} {b})"
             return txt if isinstance(op, ast.Eq) else f"(negb {txt})"
@@ -759,6 +762,8 @@ class Fn:
             if not (isinstance(ta, tuple) and ta[0] in ("L", "S")):
                 raise Unsupported("len of non-list")
             return f"(py_len {a})", Z
+        if fname == "set" and not e.args and not e.keywords:
+            return "[]", ("S", None)  # element type fixed by the first add / update
         if fname == "set" and len(e.args) == 1 and not e.keywords:
             a, ta = self.expr(e.args[0], env, hoist, pure)
             if ta not in (L(Z), ("S", Z)):
@@ -901,7 +906,7 @@ class Fn:
                 raise Unsupported("assignment target")
 
         for s in stmts:
-            if isinstance(s, ast.Expr) and isinstance(s.value, ast.Call) and isinstance(s.value.func, ast.Attribute) and s.value.func.attr in ("append", "extend") and isinstance(s.value.func.value, ast.Name):
+            if isinstance(s, ast.Expr) and isinstance(s.value, ast.Call) and isinstance(s.value.func, ast.Attribute) and s.value.func.attr in ("append", "extend", "add", "update") and isinstance(s.value.func.value, ast.Name):
                 tgt(s.value.func.value)
             elif isinstance(s, ast.AnnAssign) and s.value is not None:
                 tgt(s.target)
@@ -1026,6 +1031,31 @@ class Fn:
                 new, nt = f"({env[x][0]} ++ {v})", ("L", et if et is not None else tv[1])
             env2 = dict(env)
             env2[x] = (x, nt)
+            return self.wrap(hoist, f"let {x} := {new} in\n{cont(env2)}", mode)
+        if (isinstance(s, ast.Expr) and isinstance(s.value, ast.Call) and isinstance(s.value.func, ast.Attribute)
+                and s.value.func.attr in ("add", "update") and isinstance(s.value.func.value, ast.Name)
+                and s.value.func.value.id in env and isinstance(env[s.value.func.value.id][1], tuple) and env[s.value.func.value.id][1][0] == "S"
+                and len(s.value.args) == 1 and not s.value.keywords):
+            x = s.value.func.value.id
+            et = env[x][1][1]
+            if et not in (None, N):
+                raise Unsupported("add / update on a set of something else than positions")
+            hoist = []
+            a0 = s.value.args[0]
+            if s.value.func.attr == "add":
+                v, tv = self.expr(a0, env, hoist)
+                if tv != N:
+                    raise Unsupported("add of something else than a position")
+                new = f"({env[x][0]} ++ [{v}])"
+            else:
+                if not isinstance(a0, (ast.Tuple, ast.List)):
+                    raise Unsupported("update with something else than a display")
+                vs = [self.expr(z, env, hoist) for z in a0.elts]
+                if any(tv != N for _, tv in vs):
+                    raise Unsupported("update with something else than positions")
+                new = f"({env[x][0]} ++ [{'; '.join(v for v, _ in vs)}])"
+            env2 = dict(env)
+            env2[x] = (x, ("S", N))
             return self.wrap(hoist, f"let {x} := {new} in\n{cont(env2)}", mode)
         if isinstance(s, ast.Expr) and isinstance(s.value, ast.Call):
             hoist = []
@@ -1377,9 +1407,9 @@ class Fn:
 
         def k_body(e):
             for n in state:
-                if isinstance(e[n][1], tuple) and e[n][1][0] in ("L", "O") and e[n][1][1] is not None:
+                if isinstance(e[n][1], tuple) and e[n][1][0] in ("L", "O", "S") and e[n][1][1] is not None:
                     final[n] = e[n][1]
-                if e[n][1] != env[n][1] and not (env[n][1] in (("L", None), ("O", None)) and isinstance(e[n][1], tuple) and e[n][1][0] == env[n][1][0]):
+                if e[n][1] != env[n][1] and not (env[n][1] in (("L", None), ("O", None), ("S", None)) and isinstance(e[n][1], tuple) and e[n][1][0] == env[n][1][0]):
                     raise Unsupported(f"loop changes the type of {n}")
             return f"Ok (BNext {st_val(e)})"
 
@@ -1394,7 +1424,7 @@ class Fn:
         for n in self.assigned(s.body):
             if n not in state:
                 env_after.pop(n, None)
-        sty = {n: (final.get(n, env[n][1]) if env[n][1] in (("L", None), ("O", None)) else env[n][1]) for n in state}
+        sty = {n: (final.get(n, env[n][1]) if env[n][1] in (("L", None), ("O", None), ("S", None)) else env[n][1]) for n in state}
         for n in state:
             env_after[n] = (env[n][0], sty[n])
         after = self.block(rest, env_after, k, mode)
